@@ -3024,19 +3024,11 @@ func checkStatusWrite(r *Run) {
 	}
 	r.Check(bad == "", "C19.status", fname(fn), "the active flag is written whatever the validator's power is", "SetValidatorStatus is reachable on both outcomes of every test of validator.Power",
 		"the active flag is not updated for some values of the validator's power (test at "+bad+"): a validator that left the set keeps IsActive = true and can still open and vote on allegations", bad)
-	// the flag written is the election outcome
+	// the flag written is the election outcome (computed in this iteration), not a constant
 	okArg := false
 	if len(call.Call.Args) >= 3 {
-		if ph, isPhi := call.Call.Args[2].(*ssa.Phi); isPhi {
-			okArg = true
-			for _, e := range ph.Edges {
-				if _, isC := boolConst(e); !isC {
-					if _, isPhi2 := e.(*ssa.Phi); !isPhi2 {
-						okArg = false
-					}
-				}
-			}
-		}
+		_, isConst := boolConst(call.Call.Args[2])
+		okArg = !isConst
 	}
 	r.Check(okArg, "C19.status", fname(fn), "the flag written is the election outcome", "SetValidatorStatus(addr, elected, height) with the elected flag of this iteration",
 		"the active flag written is not the outcome of this block's election", p.ipos(call))
